@@ -15,7 +15,7 @@ from vlib import harness
 
 ID = "C10"
 LEVEL = "fault_enumeration"
-RULE = ("a case is (history of 2-5 loky Parallel calls, with/without `with`, n_jobs 2-4) x one fault: victims 1..n_jobs x how "
+RULE = ("a case is (history of 2-5 loky Parallel calls, with/without `with`, n_jobs 2-4, task arguments of 0 / 0.1 / 0.3 / 1 / 1.5 MB - larger than the pipe buffer, so that the call queue's feeder thread is blocked in a write when every worker is busy) x one fault: victims 1..n_jobs x how "
         "{SIGKILL, SIGSEGV, os._exit(3), os._exit(chosen status 0..255), SIGTERM} x instant {arg_unpickle, task_start, mid_task, task_end, result_pickle, "
         "result_send_small, result_send_large, idle_between_calls (signals from outside, or a thread left behind in the worker ending it with a chosen status - 0 included - for one, all but one or all idle workers), next_call_startup, next_call_startup_other_n_jobs (the next call asks for another n_jobs, so the executor is being resized or gracefully replaced when the idle worker dies), after_idle_timeout (every worker has left after idle_worker_timeout = 1 s; the next call has a single batch whose worker dies, alone or after killing the other freshly started workers), executor_replacement / executor_resize (a generator call is running when a second call "
         "with other executor arguments / another n_jobs makes loky shut the executor down gracefully or resize it, and the worker dies while that waits)}; the quick tier enumerates every "
@@ -30,7 +30,7 @@ ASSUMPTIONS = [
     "fan-out is limited to 6 cases at a time so that machine load is not the fault",
 ]
 SHARDS = {"quick": 6, "thorough": 6}
-FLOORS = {"quick": {"cases_with_fault_observed": 25, "calls_checked": 70, "instants_covered": 13, "deaths_while_the_executor_is_replaced_or_resized": 6, "idle_workers_ending_with_a_chosen_exit_status": 8},
+FLOORS = {"quick": {"cases_with_fault_observed": 25, "calls_checked": 70, "instants_covered": 13, "deaths_while_the_executor_is_replaced_or_resized": 6, "idle_workers_ending_with_a_chosen_exit_status": 8, "cases_with_task_arguments_larger_than_a_pipe_buffer": 10},
           "thorough": {"cases_with_fault_observed": 300, "calls_checked": 1200, "instants_covered": 13, "deaths_while_the_executor_is_replaced_or_resized": 80, "idle_workers_ending_with_a_chosen_exit_status": 80}}
 CHILD = os.path.join(harness.VERIF, "checks", "c10_child.py")
 INSTANTS = ["arg_unpickle", "task_start", "mid_task", "task_end", "result_pickle", "result_send_small", "result_send_large",
@@ -62,6 +62,14 @@ def cases(tier, seed):
             # an IDLE worker ending with a status of its own choosing (a thread left behind calls os._exit): status 0 looks
             # like a clean exit; among the idle workers one holds the call queue's reader lock, so all / all but one of them die
             yield mk(rng, i, "idle_between_calls", f"exit:{code}", victims=v)
+            i += 1
+        for k in range(8):
+            # task arguments of 0.3 - 1.5 MB, more tasks than workers, slower tasks: the feeder thread of the call queue is blocked
+            # half-way through a write when the worker dies
+            c = mk(rng, i, ["task_start", "mid_task", "task_end", "mid_task"][k % 4], ["SIGKILL", "exit", "SIGTERM", "SIGKILL"][k % 4], victims=1)
+            c.update(arg_bytes=[300_000, 1_500_000][k % 2], N=3 * c["J"] + 1, dur=0.2, pre_dispatch=["2*n_jobs", "all"][k // 4 % 2])
+            c["fault"]["victim_tasks"] = [k % c["J"]]
+            yield c
             i += 1
         for _ in range(10):
             # the window (executor being resized / replaced at the start of the next call) is a few ms wide
@@ -104,7 +112,7 @@ def mk(rng, i, inst, how, victims=1):
         # one victim: the worker running the only batch; "all": that worker first kills the other (idle) new workers
         victims = rng.choice([1, J, J])
     managed = rng.random() < 0.5 and inst not in ("executor_replacement", "executor_resize", "next_call_startup_other_n_jobs")
-    return dict(i=i, J=J, N=N, ncalls=ncalls, managed=managed, batch_size=rng.choice([1, 1, 2]),
+    return dict(i=i, J=J, N=N, ncalls=ncalls, managed=managed, batch_size=rng.choice([1, 1, 2]), arg_bytes=rng.choice([0, 0, 0, 0, 100_000, 1_000_000]),
                 pre_dispatch=rng.choice(["2*n_jobs", "all"]), dur=0.02,
                 fault=dict(call=call, instant=inst, how=how, victims=victims, victim_tasks=sorted(rng.sample(range(N), victims)),
                            J2=rng.choice([j for j in (2, 3, 4) if j != J]),
@@ -141,6 +149,8 @@ def run_case(case, ctx):
         if f["instant"] == "idle_between_calls" and str(f["how"]).startswith("exit:"):
             ctx.count("idle_workers_ending_with_a_chosen_exit_status", f["victims"])
             ctx.add("idle_exit_statuses", f["how"])
+        if case.get("arg_bytes"):
+            ctx.count("cases_with_task_arguments_larger_than_a_pipe_buffer")
         if r["result"] is None:
             prog = []
             try:
